@@ -1,3 +1,4 @@
+import Agd.Tie.TrC16
 import Agd.Lemmas.BillStat
 import Agd.Tie.C16
 /-!
@@ -382,3 +383,29 @@ example : countRec 0 exOps < 2 ^ 31 := by decide
 #print axioms upload_ok_iff
 
 end Agd.BillStat
+#print axioms Agd.Tie.TrC16.translation_complete
+#print axioms Agd.Tie.TrC16.record_new
+#print axioms Agd.Tie.TrC16.record_existing
+#print axioms Agd.Tie.TrC16.record_never_panics
+#print axioms Agd.Tie.TrC16.record_tr_existing
+#print axioms Agd.Tie.TrC16.record_tr_new
+#print axioms Agd.Tie.TrC16.remerge_absent
+#print axioms Agd.Tie.TrC16.remerge_present
+#print axioms Agd.Tie.TrC16.remerge_no_panic_iff
+#print axioms Agd.Tie.TrC16.remerge_tr_absent
+#print axioms Agd.Tie.TrC16.remerge_tr_present
+#print axioms Agd.Tie.TrC16.refresh_returns_upload_error
+#print axioms Agd.Tie.TrC16.refresh_success
+#print axioms Agd.Tie.TrC16.refresh_failure
+#print axioms Agd.Tie.TrC16.refresh_remerge_iff
+#print axioms Agd.Tie.TrC16.refresh_reports_outcome
+#print axioms Agd.Tie.TrC16.toProtobuf_tr
+#print axioms Agd.Tie.TrC16.toProtobuf_no_panic_iff
+#print axioms Agd.Tie.TrC16.toProtobuf_queries_model
+#print axioms Agd.Tie.TrC16.upload_empty
+#print axioms Agd.Tie.TrC16.upload_open_fails
+#print axioms Agd.Tie.TrC16.goRangeFrom_next
+#print axioms Agd.Tie.TrC16.foldl_send
+#print axioms Agd.Tie.TrC16.upload_sends_all
+#print axioms Agd.Tie.TrC16.upload_send_fails
+#print axioms Agd.Tie.TrC16.upload_nil_record_skipped
